@@ -230,7 +230,7 @@ const (
 	maxLoopTicks   = 1000000000    // loop duration in media timescale units (3 h at 90 kHz)
 	maxNowMS       = 8796093022208 // 2^43 ms (year 2248)
 	maxStartTimeS  = 8796093022    // availabilityStartTime (s)
-	maxWraps       = 8796093022208 // completed loops since availabilityStartTime (one per ms until maxNowMS)
+	maxWraps       = 4000000000    // completed loops since availabilityStartTime (so that loops * loop ticks < 2^63)
 	phaseEarly     = 0
 	phaseOK        = 1
 	phaseGone      = 2
@@ -548,7 +548,7 @@ func lemmaDivMul(k, c, b int) {}
 
 // lemmaGapFree: segment n+1 starts exactly where segment n ends, also across a loop wrap.
 //@ lemma lemmaGapFree
-//@   requires a != nil && wfRep(rep) && loopExact(a, rep) && 0 <= n && n <= 4294967295
+//@   requires a != nil && wfRep(rep) && loopExact(a, rep) && 0 <= n
 //@   use      lemmaWrapDurIsRepDur(a, rep)
 //@   use      lemmaDivStep(n, len(rep.Segments))
 //@   ensures  specStart(a, rep, n+1) == specEnd(a, rep, n)
@@ -629,6 +629,7 @@ func lemmaInfiniteOffset(a *asset, rep *RepData, nr uint32, cfg *ResponseConfig,
 //@   ensures  0 <= result.startRelMS && result.startRelMS < a.LoopDurMS && 0 <= result.startWraps && result.startWraps*a.LoopDurMS+result.startRelMS == result.startTimeMS-cfg.StartTimeS*1000
 //@   ensures  0 <= result.nowRelMS && result.nowRelMS < a.LoopDurMS && 0 <= result.nowWraps && result.nowWraps*a.LoopDurMS+result.nowRelMS == nowMS-cfg.StartTimeS*1000
 //@   ensures  result.startWraps <= result.nowWraps
+//@   ensures  result.nowWraps == (nowMS - cfg.StartTimeS*1000) / a.LoopDurMS
 //@   ensures  result.startWrapMS == result.startWraps*a.LoopDurMS+cfg.StartTimeS*1000 && result.nowWrapMS == result.nowWraps*a.LoopDurMS+cfg.StartTimeS*1000
 
 // wfWrapTimes: what calcWrapTimes guarantees, as needed by generateTimelineEntries.
@@ -665,7 +666,12 @@ func nrListed(entries []*m.S, n int) int {
 //@   ensures  first: result.startNr >= 0 ==> len(result.entries) >= 1 && result.entries[0] != nil && result.entries[0].T != nil
 //@   ensures  empty: result.startNr >= -1 && (result.startNr < 0 ==> len(result.entries) == 0)
 //@   ensures  runs: forall k in [0, len(result.entries)) :: result.entries[k] != nil && result.entries[k].R >= 0
+//@   ensures  lastSegInfo: result.lsi.nr >= 0 ==> result.lsi.startTime == uint64(specStart(a, a.Reps[repID], result.lsi.nr)) && result.lsi.dur == specDur(a.Reps[repID], result.lsi.nr) && result.lsi.timescale == uint64(a.Reps[repID].MediaTimescale)
 //@   allocates
+//@   loop 1 use-entry lemmaDivMul(wt.startWraps, relStartIdx, nrSegs)
+//@   loop 1 use-entry lemmaWrapDurIsRepDur(a, rep)
+//@   loop 1 use lemmaGapFree(a, rep, nr-1)
+//@   loop 1 invariant lsi.nr == nr-1 && lsi.startTime == uint64(specStart(a, rep, nr-1)) && lsi.dur == specDur(rep, nr-1) && d == lsi.dur && lsi.timescale == uint64(rep.MediaTimescale)
 //@   loop 1 invariant forall k in [0, len(se.entries)) :: se.entries[k] != nil && se.entries[k].R >= 0 && fresh(se.entries[k])
 //@   loop 1 invariant len(se.entries) >= 1 && s == se.entries[len(se.entries)-1]
 //@   loop 1 invariant rep == a.Reps[repID] && nrSegs == len(rep.Segments) && segs == rep.Segments && se.startNr >= 0 && se.startNr < nr
@@ -1199,6 +1205,7 @@ func encWanted(codec string) bool { return strHasPrefix(codec, "avc") || strHasP
 //@ func findLastSegNr
 //@   requires a != nil && cfg != nil && rep != nil && a.Reps != nil && a.Reps[rep.ID] != nil && wfRep(a.Reps[rep.ID]) && orderedRep(a.Reps[rep.ID]) && loopExact(a, a.Reps[rep.ID])
 //@   requires a.LoopDurMS > 0 && a.LoopDurMS <= maxLoopDurMS && 0 <= cfg.StartTimeS && cfg.StartTimeS <= maxStartTimeS && cfg.StartTimeS*1000 <= nowMS && nowMS <= maxNowMS
+//@   requires (nowMS - cfg.StartTimeS*1000) / a.LoopDurMS <= maxWraps
 //@   ensures  result >= specStartNr(cfg) - 1
 //@   allocates
 
